@@ -3,188 +3,42 @@ import ColoVerif.Proofs.F64
 import ColoVerif.Proofs.SpreadExport
 import Mathlib.Tactic.Linarith
 import Mathlib.Tactic.Ring
-import Mathlib.Tactic.NormNum.Pow
-import Mathlib.Tactic.Positivity
 /-
 C06 helper lemmas for the binary32 model `Model/SpreadF.lean`:
 
-* `fl_err` : one rounding moves any rational `x` by at most `|x|·2^-24 + 2^-150` (relative error in the
-  normal range, half the smallest subnormal below it) — no side condition;
-* `coordAtF_le` / `coordAtF_ge` : the coordinate expression `dem*hi + (1-dem)*lo` evaluated in binary32 stays
-  within `epsF δ lo hi` of `[lo, hi]` whenever the running share satisfies `0 ≤ dem ≤ 1 + δ`;
-* `share_nonneg` : the running share is never negative;
-* `exposed_within_half` : the integrality argument behind "the excursion disappears in the export rounding".
+* `clampBin_bounds` / `coordAtF_bounds` : the clamp of `spreadCells` keeps the written coordinate in the closed
+  bin whatever the roundings did (only `lo ≤ hi` is needed);
+* `fl_int` / `fl_pos_of_int` : `(float) n` is exact for `|n| ≤ 2^24` and positive for a positive `int`;
+* `exposed_within_half` : the integrality argument behind "an excursion below one half disappears in the
+  export rounding".
 -/
 namespace ColoVerif.SpreadF
 open ColoVerif.F64 ColoVerif.Spread
 
-/-- unit roundoff of binary32 -/
-def u32 : Rat := 1 / 16777216
-/-- half the smallest subnormal, `2^-150` -/
-def eta32 : Rat := 1 / 1427247692705959881058285969449495136382746624
-
-theorem u32_eq : u32 = (2 : Rat) ^ (-24 : Int) := by unfold u32; norm_num
-theorem eta32_eq : eta32 = (2 : Rat) ^ (-149 : Int) / 2 := by unfold eta32; norm_num
-
 theorem fl_zero : fl 0 = 0 := f32'_zero
-theorem fl_nonneg {q : Rat} (h : 0 ≤ q) : 0 ≤ fl q := f32'_nonneg h
 theorem fl_mono {x y : Rat} (h : x ≤ y) : fl x ≤ fl y := f32'_mono h
-theorem fl_neg (x : Rat) : fl (-x) = -fl x := f32'_neg x
 
-/-- half an ulp is at most `x·2^-24 + 2^-150`, for every positive `x` -/
-theorem half_ulp_le_gen {x : Rat} (hx : 0 < x) :
-    (2 : Rat) ^ fexp 24 (-149) x / 2 ≤ x * u32 + eta32 := by
-  obtain ⟨_, _, s3⟩ := fexp_spec 24 (-149) x hx
-  have hu : (0 : Rat) ≤ x * u32 := by unfold u32; positivity
-  have he : (0 : Rat) ≤ eta32 := by unfold eta32; norm_num
-  rcases s3 with h | h
-  · rw [h, eta32_eq]; linarith
-  · have e : (2 : Rat) ^ fexp 24 (-149) x / 2 =
-        (2 : Rat) ^ (fexp 24 (-149) x + 24 - 1) * (2 : Rat) ^ (-24 : Int) := by
-      rw [← z2_pred, ← z2_add]; congr 1; ring
-    rw [e, u32_eq]
-    have := mul_le_mul_of_nonneg_right h (le_of_lt (z2_pos (-24)))
-    linarith
+/-- `(float) n` is exact up to `2^24` -/
+theorem fl_int (n : Int) (h : |n| ≤ 2 ^ 24) : fl (n : Rat) = (n : Rat) := f32'_exact_int n h
 
-theorem fl_err_pos {x : Rat} (hx : 0 < x) : x - (x * u32 + eta32) ≤ fl x ∧ fl x ≤ x + (x * u32 + eta32) := by
-  have h1 := fround_le_add_half_ulp (prec := 24) (emin := -149) hx
-  have h2 := fround_ge_sub_half_ulp (prec := 24) (emin := -149) hx
-  have h3 := half_ulp_le_gen hx
-  unfold fl f32'
-  constructor <;> linarith
-
-/-- **one rounding**: `|fl x − x| ≤ |x|·2^-24 + 2^-150` for every rational `x` -/
-theorem fl_err (x : Rat) : |fl x - x| ≤ |x| * u32 + eta32 := by
-  rcases lt_trichotomy x 0 with h | h | h
-  · obtain ⟨a, b⟩ := fl_err_pos (x := -x) (by linarith)
-    rw [fl_neg] at a b
-    rw [abs_of_neg h, abs_le]
-    constructor <;> linarith
-  · subst h
-    rw [fl_zero]
-    unfold u32 eta32; norm_num
-  · obtain ⟨a, b⟩ := fl_err_pos h
-    rw [abs_of_pos h, abs_le]
-    constructor <;> linarith
-
-/-! ### the running share is non-negative -/
-
-theorem halfShareF_nonneg (demands : List Rat) (inv : Rat) (hinv : 0 ≤ inv) (c : Nat)
-    (hd : 0 ≤ demands.getD c 0) : 0 ≤ halfShareF demands inv c := by
-  unfold halfShareF
-  exact fl_nonneg (mul_nonneg (fl_nonneg (by linarith)) hinv)
-
-theorem spreadStepF_share_nonneg (demands : List Rat) (inv lo hi : Rat) (hinv : 0 ≤ inv)
-    (st : Rat × List Rat) (e : Rat × Nat) (h : 0 ≤ st.1) :
-    0 ≤ (spreadStepF demands inv lo hi st e).1 := by
-  unfold spreadStepF
-  split
-  · exact h
-  · rename_i hd
-    have hd' : 0 ≤ demands.getD e.2 0 := le_of_lt (not_le.mp hd)
-    have hh := halfShareF_nonneg demands inv hinv e.2 hd'
-    exact fl_nonneg (add_nonneg (fl_nonneg (add_nonneg h hh)) hh)
-
-theorem spreadLoopF_share_nonneg (demands : List Rat) (inv lo hi : Rat) (hinv : 0 ≤ inv) :
-    ∀ (order : List (Rat × Nat)) (st : Rat × List Rat), 0 ≤ st.1 →
-      0 ≤ (spreadLoopF demands inv lo hi order st).1
-  | [], st, h => h
-  | e :: es, st, h => by
-    unfold spreadLoopF
-    rw [List.foldl_cons]
-    exact spreadLoopF_share_nonneg demands inv lo hi hinv es _
-      (spreadStepF_share_nonneg demands inv lo hi hinv st e h)
-
-theorem sumF_nonneg : ∀ (l : List Rat) (a : Rat), 0 ≤ a → (∀ d ∈ l, 0 ≤ d) → 0 ≤ l.foldl addF a
-  | [], a, h, _ => h
-  | d :: ds, a, h, hd => by
-    rw [List.foldl_cons]
-    exact sumF_nonneg ds _ (fl_nonneg (add_nonneg h (hd d (by simp)))) (fun x hx => hd x (by simp [hx]))
-
-theorem invF_nonneg (demands : List Rat) (hd : ∀ d ∈ demands, 0 ≤ d) : 0 ≤ invF demands := by
-  unfold invF
-  have := sumF_nonneg demands 0 (le_refl 0) hd
-  exact fl_nonneg (div_nonneg (by norm_num) this)
-
-/-! ### the coordinate expression -/
-
-/-- the enclosure radius for a running share in `[0, 1 + δ]`: the exact excursion `δ·(hi − lo)` plus the
-four roundings of `dem*hi + (1-dem)*lo` -/
-def epsF (δ lo hi : Rat) : Rat :=
-  δ * (hi - lo) + (1 + δ) * (|lo| + |hi|) * (4 * u32) + 8 * eta32
-
-/-- exact arithmetic: with `0 ≤ dem ≤ 1 + δ` and `lo ≤ hi` the interpolation lies in `[lo, hi + δ(hi−lo)]` -/
-theorem interp_bounds {dem δ lo hi : Rat} (h0 : 0 ≤ dem) (h1 : dem ≤ 1 + δ) (hlh : lo ≤ hi) :
-    lo ≤ dem * hi + (1 - dem) * lo ∧ dem * hi + (1 - dem) * lo ≤ hi + δ * (hi - lo) := by
-  have e : dem * hi + (1 - dem) * lo = lo + dem * (hi - lo) := by ring
-  rw [e]
-  have hw : 0 ≤ hi - lo := by linarith
-  constructor
-  · have := mul_nonneg h0 hw; linarith
-  · have := mul_le_mul_of_nonneg_right h1 hw; linarith
-
-/-- the four roundings of the coordinate expression move it by at most
-`(1+δ)(|lo|+|hi|)·4u + 8η` -/
-theorem coordAtF_err {dem δ lo hi : Rat} (h0 : 0 ≤ dem) (h1 : dem ≤ 1 + δ) (hδ0 : 0 ≤ δ) :
-    |coordAtF dem lo hi - (dem * hi + (1 - dem) * lo)| ≤ (1 + δ) * (|lo| + |hi|) * (4 * u32) + 8 * eta32 := by
-  -- the four roundings
-  have r1 := fl_err (dem * hi)
-  have r2 := fl_err (1 - dem)
-  have r3 := fl_err (fl (1 - dem) * lo)
-  have r4 := fl_err (fl (dem * hi) + fl (fl (1 - dem) * lo))
-  have hc : coordAtF dem lo hi = fl (fl (dem * hi) + fl (fl (1 - dem) * lo)) := rfl
-  rw [hc]
-  generalize fl (fl (dem * hi) + fl (fl (1 - dem) * lo)) = c at r4 ⊢
-  generalize fl (fl (1 - dem) * lo) = r at r3 r4 ⊢
-  generalize fl (1 - dem) = q at r2 r3 ⊢
-  generalize fl (dem * hi) = p at r1 r4 ⊢
-  -- magnitudes
-  have hL0 : 0 ≤ |lo| := abs_nonneg _
-  have hH0 : 0 ≤ |hi| := abs_nonneg _
-  have a1 : |dem * hi| ≤ (1 + δ) * |hi| := by
-    rw [abs_mul, abs_of_nonneg h0]; exact mul_le_mul_of_nonneg_right h1 hH0
-  have a2 : |1 - dem| ≤ 1 + δ := by
-    rw [abs_le]; constructor <;> linarith
-  have hDL : |lo| ≤ (1 + δ) * |lo| := by
-    have := mul_le_mul_of_nonneg_right (show (1 : Rat) ≤ 1 + δ by linarith) hL0; linarith
-  have hDH : |hi| ≤ (1 + δ) * |hi| := by
-    have := mul_le_mul_of_nonneg_right (show (1 : Rat) ≤ 1 + δ by linarith) hH0; linarith
-  simp only [u32, eta32] at *
-  have tq := abs_sub_abs_le_abs_sub q (1 - dem)
-  have aq : |q| ≤ (1 + δ) + (1 + δ) * (1 / 16777216) + 1 / 1427247692705959881058285969449495136382746624 := by
-    linarith
-  have aql : |q * lo| ≤ ((1 + δ) + (1 + δ) * (1 / 16777216) +
-      1 / 1427247692705959881058285969449495136382746624) * |lo| := by
-    rw [abs_mul]; exact mul_le_mul_of_nonneg_right aq hL0
-  have eq2 : |q - (1 - dem)| ≤ (1 + δ) * (1 / 16777216) + 1 / 1427247692705959881058285969449495136382746624 := by
-    linarith
-  have eq3' : |q * lo - (1 - dem) * lo| ≤ ((1 + δ) * (1 / 16777216) +
-      1 / 1427247692705959881058285969449495136382746624) * |lo| := by
-    have e : q * lo - (1 - dem) * lo = (q - (1 - dem)) * lo := by ring
-    rw [e, abs_mul]; exact mul_le_mul_of_nonneg_right eq2 hL0
-  have tp := abs_sub_abs_le_abs_sub p (dem * hi)
-  have tr := abs_sub_abs_le_abs_sub r (q * lo)
-  have apr : |p + r| ≤ |p| + |r| := abs_add_le p r
-  have tot : c - (dem * hi + (1 - dem) * lo) =
-      (c - (p + r)) + (p - dem * hi) + (r - q * lo) + (q * lo - (1 - dem) * lo) := by ring
-  rw [tot]
-  have t1 := abs_add_le ((c - (p + r)) + (p - dem * hi) + (r - q * lo)) (q * lo - (1 - dem) * lo)
-  have t2 := abs_add_le ((c - (p + r)) + (p - dem * hi)) (r - q * lo)
-  have t3 := abs_add_le (c - (p + r)) (p - dem * hi)
-  have hDL0 : 0 ≤ (1 + δ) * |lo| := by linarith
-  have hDH0 : 0 ≤ (1 + δ) * |hi| := by linarith
+/-- `(float) n > 0` for a positive `int` (of any magnitude) -/
+theorem fl_pos_of_int (n : Int) (h : 0 < n) : 0 < fl (n : Rat) := by
+  have h1 : (1 : Rat) ≤ (n : Rat) := by exact_mod_cast h
+  have := fl_mono h1
+  have e : fl (1 : Rat) = 1 := by
+    have := fl_int 1 (by norm_num)
+    simpa using this
+  rw [e] at this
   linarith
 
-/-- **enclosure of one coordinate**: running share in `[0, 1+δ]`, `lo ≤ hi` ⇒ the binary32 coordinate is
-within `epsF δ lo hi` of the closed bin -/
-theorem coordAtF_enclosure {dem δ lo hi : Rat} (h0 : 0 ≤ dem) (h1 : dem ≤ 1 + δ) (hδ0 : 0 ≤ δ)
-    (hlh : lo ≤ hi) :
-    lo - epsF δ lo hi ≤ coordAtF dem lo hi ∧ coordAtF dem lo hi ≤ hi + epsF δ lo hi := by
-  obtain ⟨b1, b2⟩ := interp_bounds h0 h1 hlh
-  have e := abs_le.mp (coordAtF_err (lo := lo) (hi := hi) h0 h1 hδ0)
-  have hw : 0 ≤ δ * (hi - lo) := mul_nonneg hδ0 (by linarith)
-  unfold epsF
-  constructor <;> linarith [e.1, e.2]
+theorem clampBin_bounds (lo hi v : Rat) (h : lo ≤ hi) : lo ≤ clampBin lo hi v ∧ clampBin lo hi v ≤ hi := by
+  unfold clampBin
+  split <;> split <;> constructor <;> linarith
+
+/-- the coordinate written by `spreadCells` is in the closed bin, for every share and every rounding -/
+theorem coordAtF_bounds (dem lo hi : Rat) (h : lo ≤ hi) :
+    lo ≤ coordAtF dem lo hi ∧ coordAtF dem lo hi ≤ hi :=
+  clampBin_bounds lo hi _ h
 
 /-! ### the export rounding -/
 
